@@ -79,6 +79,10 @@ def variants(rng, case: Dict[str, Any]) -> List[Any]:
     for f in v["inputs"]:
         f[1] = [respell(rng, t) if rng.random() < 0.7 else t for t in f[1]]
     out.append(("spelling", v))
+    if case.get("constraints") and len(case["constraints"]) >= 2:
+        v = copy.deepcopy(case)
+        v["constraints"] = list(reversed([[n, list(r)] for (n, r) in v["constraints"]]))
+        out.append(("constraint-file-order", v))
     return out
 
 
@@ -199,10 +203,51 @@ def correspondence(ctx: Ctx) -> None:
     ctx.extra["metamorphic_differences_on_impl"] = len(found)
     new_found += discovery_order_metamorphic(ctx)
     new_found += index_page_order_metamorphic(ctx)
+    new_found += release_spelling_metamorphic(ctx)
     ctx._found = new_found  # type: ignore[attr-defined]
     if new_found:
         ctx.mismatch("metamorphic", {"variant": new_found[0]["variant"], "base": new_found[0]["base"]},
                      new_found[0]["base_out"], new_found[0]["variant_out"])
+
+
+def release_spelling_metamorphic(ctx: Ctx) -> List[Dict[str, Any]]:
+    """compile -> feed back with one project released for upgrade (-P): the result must not depend on how the released
+    project's name is typed (case, '-', '_', '.')"""
+    import c05 as C05M
+    M = solverlib.mods()
+    alphabet, _ = graphenc.measure_xorder()
+    rng = ctx.rng
+    tmp = str(ctx.tmpdir())
+    out: List[Dict[str, Any]] = []
+
+    def work():
+        for t in range(ctx.n(80, 1500)):
+            case = solverlib.gen_case(rng, alphabet, rng.choice(["calm", "calm", "extras"]))
+            case["constraints"] = None
+            case["remove_constraints"] = False
+            first = solverlib.run_impl(case, M, keep=True)
+            if first["kind"] != "OK" or not first.get("emitted"):
+                continue
+            new_uni = C05M.newer_versions(rng, case["universe"], C05M.pins_of(first))
+            key = rng.choice(sorted(first["emitted"]))
+            spellings = sorted(set([key] + solverlib.SPELL.get(key, [key]) + [key.upper()]))
+            base = None
+            for sp in spellings:
+                first2 = solverlib.run_impl(case, M, keep=True)
+                ch = C05M.exec_chain(M, tmp, 900 + (t % 40), case, first2, "v3-release-one", new_uni, [sp], case["inputs"], True, None)
+                if ch is None or "second" not in ch:
+                    break
+                got = [ch["second"]["kind"], C05M.pins_of(ch["second"]) if ch["second"]["kind"] == "OK" else None]
+                ctx.count("variant:release-spelling")
+                ctx.case(key=json.dumps([case["universe"], case["inputs"], "release", sp], sort_keys=True), nontrivial=len(spellings) >= 2)
+                if base is None:
+                    base = (sp, got)
+                elif got != base[1] and not out:
+                    ctx.count("differs:release-spelling")
+                    out.append({"variant": "release-spelling", "base": {"case": solverlib_clean(case), "new_universe": new_uni, "released_as": base[0]},
+                                "changed_release": sp, "base_out": base[1], "variant_out": got})
+    solverlib.in_big_thread(work)
+    return out
 
 
 DIR_NAMES = ["app", "lib", "core", "tests", "test", "integration-tests", "unit-test", "pkg", "tools", "docs", "src", "x-tests", "plugins"]
@@ -370,12 +415,23 @@ def search(ctx: Ctx) -> Optional[Dict[str, Any]]:
         f = found[0]
         return {"input": {"base": f["base"], "changed": f.get("changed"), "variant": f["variant"]},
                 "why": f"output differs under '{f['variant']}' although the logical input is the same",
-                "base_output": f["base_out"], "variant_output": f["variant_out"], "changed_page": f.get("changed_page")}
+                "base_output": f["base_out"], "variant_output": f["variant_out"], "changed_page": f.get("changed_page"),
+                "changed_release": f.get("changed_release")}
     return SP.search(ctx, "C09", MODES) if False else None
 
 
 def replay(ctx: Ctx, payload: Dict[str, Any]) -> bool:
     fi = payload.get("failing_input")
+    if fi and fi.get("changed_release"):
+        import c05 as C05M
+        M = solverlib.mods()
+        b = fi["input"]["base"]
+
+        def run(sp):
+            first = solverlib.run_impl(b["case"], M, keep=True)
+            ch = C05M.exec_chain(M, str(ctx.tmpdir()), 998, b["case"], first, "v3-release-one", b["new_universe"], [sp], b["case"]["inputs"], True, None)
+            return None if ch is None or "second" not in ch else [ch["second"]["kind"], C05M.pins_of(ch["second"]) if ch["second"]["kind"] == "OK" else None]
+        return solverlib.in_big_thread(lambda: run(b["released_as"]) != run(fi["changed_release"]))
     if fi and fi.get("changed_page"):
         t = tuple(fi["input"]["base"]["interp"])
         return page_offered(fi["input"]["base"]["page"], t)[2] != page_offered(fi["changed_page"], t)[2]
